@@ -288,6 +288,21 @@ def compare(I, op, a, b):
                 r = I.call_value(_pyvc().BoundMethod(a, m), [b], {})
                 if r is not NotImplemented:
                     return r
+        elif (type(a).__module__ or '').startswith('kmip'):
+            # a native instance of a repository class on the left (e.g. one of the engine's supported
+            # protocol versions): its comparison method is interpreted like any other repository code
+            m = I._class_attr(type(a), name)
+            if isinstance(m, types.FunctionType):
+                r = I.call_value(_pyvc().BoundMethod(a, m), [b], {})
+                if r is not NotImplemented:
+                    return r
+        if isinstance(b, Obj):
+            refl = {'__lt__': '__gt__', '__le__': '__ge__', '__gt__': '__lt__', '__ge__': '__le__'}[name]
+            m = I._class_attr(b.cls, refl)
+            if m is not None:
+                r = I.call_value(_pyvc().BoundMethod(b, m), [a], {})
+                if r is not NotImplemented:
+                    return r
         I.raise_py(TypeError, "'%s' not supported" % op)
     if not is_symbolic(a) and not is_symbolic(b):
         try:
